@@ -534,7 +534,8 @@ class Model:
                         for i in gs:
                             key_vals[gkeys[i]] = self.ev(gexprs[i], rows[0])
                     grp = {"rows": rows, "key_vals": key_vals,
-                           "null_keys": set(gkeys[i] for i in range(n) if i not in gs)}
+                           # (an expression listed twice, ROLLUP (k, k), is grouped in a set as soon as one of its positions is)
+                           "null_keys": set(gkeys[i] for i in range(n) if i not in gs) - set(gkeys[i] for i in gs)}
                     base = rows[0] if rows else Env({}, env)
                     if s.having is not None and self.ev(s.having, base, grp) is not True:
                         continue
